@@ -206,15 +206,15 @@ def mix(on=True, exclude=()):
     _MIX_EXCLUDE = tuple(exclude)
 
 
-def run_decode(tname_or_type, data, command_code=None, enc=None, strict=True, source=None, max_events=None, marshal=None, root="", **extra):
+def run_decode(tname_or_type, data, command_code=None, enc=None, strict=True, source=None, max_events=None, marshal=None, root="", delivery=None, **extra):
     """Run the library's decoder to its end.  Returns an Observation; never raises."""
     tpm_type = lib_type(tname_or_type) if isinstance(tname_or_type, str) else tname_or_type
     obs = Observation()
-    if _MIX and source is None and marshal is None and not extra:
+    if (delivery or _MIX) and source is None and marshal is None and not extra:
         from . import context
 
-        kind = context.choose(tpm_type.__name__, data)
-        got = context.deliver(kind, tpm_type.__name__, data, lib_type) if kind and kind not in _MIX_EXCLUDE else None
+        kind = delivery or context.choose(tpm_type.__name__, data)  # `delivery`: a caller's explicit choice (context.KINDS)
+        got = context.deliver(kind, tpm_type.__name__, data, lib_type) if kind and (delivery or kind not in _MIX_EXCLUDE) else None
         if got is not None:
             marshal, source = got[0], got[1]
             obs.delivery = kind
